@@ -176,8 +176,9 @@ class ObjectMeta(type, Element):
         return [validator for validator in possible_validators if validator]
 
     def python(cls) -> str:
-        super_cls = next(iter(cls.mro()[1:]))
-        cls_args = [super_cls.__name__]
+        # Inherited properties and keywords are written out in full, so the
+        # declaration stands on its own whatever the bases of `cls` are.
+        cls_args = ["Object"]
         parameters = list(
             inspect.signature(type(cls).__new__).parameters.values()
         )
